@@ -570,9 +570,17 @@ def rule234(ctx, rep, M):
                 return e.attr
             if isinstance(e, (ast.Tuple, ast.List, ast.Set)):
                 return tuple(sval(x, req, cur) for x in e.elts)
+            if isinstance(e, ast.Name) and _local_def(e.id) is not None:
+                return sval(_local_def(e.id), req, cur)
             raise _NU2(norm(e))
 
+        def _local_def(name):
+            defs = [d.value for d in setter.own_nodes() if isinstance(d, ast.Assign) and any(isinstance(t, ast.Name) and t.id == name for t in d.targets)]
+            return defs[0] if len(defs) == 1 else None
+
         def struth(e, req, cur):
+            if isinstance(e, ast.Name) and e.id != req_name and _local_def(e.id) is not None:
+                return struth(_local_def(e.id), req, cur)  # a named sub-condition bound once in the setter
             if isinstance(e, ast.BoolOp):
                 vals = [struth(v, req, cur) for v in e.values]
                 return all(vals) if isinstance(e.op, ast.And) else any(vals)
